@@ -235,6 +235,9 @@ theorem udp_step (s s' : St) (a : Act) (ha : UdpAct a) (hu : UdpLog s) (hs : ste
       · split at hs <;> (simp only [Option.some.injEq] at hs; subst hs; exact same _ rfl rfl rfl)
       · simp only [Option.some.injEq] at hs; subst hs; exact same _ rfl rfl rfl
     · simp only [Option.some.injEq] at hs; subst hs; exact same _ rfl rfl rfl
+  | sendLocal lid adapter =>
+    simp only [step] at hs
+    split at hs <;> (simp only [Option.some.injEq] at hs; subst hs; exact same _ rfl rfl rfl)
   | remove id =>
     simp only [step, Option.some.injEq] at hs; subst hs
     obtain ⟨d1, d2, d3, d4, d5, d6, d7⟩ := deregister_live s id .user
